@@ -664,6 +664,10 @@ class DatasetBuilder:
             raise DataError(f"{n_bad} unknown entity IDs")
 
         val_array: pa.Array = pa.array(values)  # type: ignore
+        # replace_with_mask consumes the values in table-row order
+        order = np.argsort(nums.to_numpy())
+        if np.any(np.diff(order) < 0):
+            val_array = val_array.take(order)
         tbl_mask = np.zeros(e_tbl.num_rows, dtype=np.bool_)
         tbl_mask[nums.to_numpy()] = True
         tbl_mask = pa.array(tbl_mask)
